@@ -57,6 +57,7 @@ def build(tier, seed):
     tasks = [a_task(PROP, _get_deps),
              Task(f"{PROP}.S.deplist", PROP, "Project.correlate deplist", lambda: __import__("contracts.deps", fromlist=["x"]).deplist_obligations(PROP, lambda: __import__("bounded.c13", fromlist=["x"]).search())),
              Task(f"{PROP}.S.local_variables", PROP, "FortranType.correlate", lambda: graphsc.local_variables_obligations(PROP)),
+             a_task(PROP, _w(graphsc.add_nested_nodes)),
              a_task(PROP, _w(graphsc.add_to_graph)), a_task(PROP, _w(graphsc.register)),
              Task(f"{PROP}.S.add_node", PROP, "add_node methods", _replay(graphsc.add_node_obligations)),
              Task(f"{PROP}.S.adjacency", PROP, "node constructors", _replay(graphsc.adjacency_obligations)), bounded_task()]
